@@ -247,3 +247,96 @@ class tree_decomposition_from_order:
             lambda b, x: implies(b in result and x in b, x in old(keys(graph))), "set[PyVal],PyVal"),
         "nonempty": lambda result: exists(lambda b: b in result, "set[PyVal]"),
     }
+
+
+# ---- more helpers of the lower / upper bound and of quickbb's reductions (C10) ---------------------------------------
+@contract("fggs.factorize.contract_edge")
+class contract_edge:
+    sig = {"graph": "dict[PyVal,set[PyVal]]", "u": "PyVal", "v": "PyVal"}
+    properties = ["C10"]
+    requires = lambda graph, u, v: sym_irrefl(graph) and u in graph and v in graph and u != v
+    loops = {0: lambda graph, u, v, _i0, _it0: (
+        sym_irrefl(graph) and keys(graph) == old(keys(graph)) and graph[v] == old(graph)[v]
+        and forall(lambda w, x: implies(w in graph and w != u and x != u, (x in graph[w]) == (x in old(graph)[w])), "PyVal,PyVal")
+        and forall(lambda x: implies(x in graph[u], x in old(graph)[u] or (x in old(graph)[v] and x != u)), "PyVal")
+        and forall(lambda x: implies(x in old(graph)[u], x in graph[u]), "PyVal")
+        and forall(lambda j: implies(0 <= j and j < _i0 and _it0[j] != u, _it0[j] in graph[u]), "int"))}
+    ensures = {
+        # v is merged into u: v disappears, u inherits v's other neighbours, nothing else changes
+        "view": lambda graph, u, v: (
+            keys(graph) == without(old(keys(graph)), v)
+            and forall(lambda x: (x in graph[u]) == (x != v and x != u and (x in old(graph)[u] or x in old(graph)[v])), "PyVal")
+            and forall(lambda w, x: implies(w in graph and w != u, (x in graph[w]) == (
+                x != v and (x in old(graph)[w] or (x == u and w in old(graph)[v])))), "PyVal,PyVal")),
+        "inv": lambda graph, u, v: sym_irrefl(graph),
+    }
+
+
+@contract("fggs.factorize.simplicial")
+class simplicial:
+    sig = {"graph": "dict[PyVal,set[PyVal]]", "v": "PyVal"}
+    properties = ["C10"]
+    requires = lambda graph, v: sym_irrefl(graph) and v in graph
+    ensures = {"decides": lambda graph, v, result: (
+        result == forall(lambda a, b: implies(a in graph[v] and b in graph[v] and a != b, b in graph[a]), "PyVal,PyVal")
+        and graph == old(graph))}
+
+
+def clique_without(graph, v, u):
+    # the neighbours of v other than u are pairwise adjacent
+    return forall(lambda a, b: implies(a in graph[v] and b in graph[v] and a != u and b != u and a != b, b in graph[a]), "PyVal,PyVal")
+
+
+@contract("fggs.factorize.almost_simplicial")
+class almost_simplicial:
+    sig = {"graph": "dict[PyVal,set[PyVal]]", "v": "PyVal"}
+    properties = ["C10"]
+    requires = lambda graph, v: sym_irrefl(graph) and v in graph
+    loops = {0: lambda graph, v, _i0, _it0: (
+        graph == old(graph) and forall(lambda j: implies(0 <= j and j < _i0, not clique_without(graph, v, _it0[j])), "int"))}
+    ensures = {"decides": lambda graph, v, result: (
+        result == exists(lambda u: u in graph[v] and clique_without(graph, v, u), "PyVal") and graph == old(graph))}
+
+
+# ---- connected_components (used by acb): a partition of the vertices outside s into blocks closed under adjacency ------
+def cc_blocks_ok(g, s, comps):
+    return (forall(lambda c, x: implies(0 <= c and c < len(comps) and x in comps[c], x in g and x not in s), "int,PyVal")
+            and forall(lambda c, d, x: implies(0 <= c and c < d and d < len(comps), not (x in comps[c] and x in comps[d])), "int,int,PyVal")
+            and forall(lambda c: implies(0 <= c and c < len(comps), exists(lambda x: x in comps[c], "PyVal")), "int")
+            # no edge leaves a block except into s
+            and forall(lambda c, x, y: implies(0 <= c and c < len(comps) and x in comps[c] and y in g[x] and y not in s,
+                                               y in comps[c]), "int,PyVal,PyVal"))
+
+
+@contract("fggs.factorize.connected_components")
+class connected_components:
+    sig = {"g": "dict[PyVal,set[PyVal]]", "s": "set[PyVal]"}
+    properties = ["C10"]
+    locals = {"comps": "list[set[PyVal]]", "comp": "set[PyVal]"}
+    requires = lambda g, s: sym_irrefl(g)
+    loops = {
+        0: lambda g, s, nodes, comps: (
+            g == old(g) and s == old(s) and cc_blocks_ok(g, s, comps)
+            and forall(lambda x: implies(x in nodes, x in g and x not in s), "PyVal")
+            and forall(lambda c, x: implies(0 <= c and c < len(comps) and x in comps[c], x not in nodes), "int,PyVal")
+            and forall(lambda x: implies(x in g and x not in s, x in nodes
+                                         or exists(lambda c: 0 <= c and c < len(comps) and x in comps[c], "int")), "PyVal")),
+        1: lambda g, s, nodes, comps, comp, agenda: (
+            g == old(g) and s == old(s) and cc_blocks_ok(g, s, comps)
+            and forall(lambda x: implies(x in nodes, x in g and x not in s), "PyVal")
+            and forall(lambda c, x: implies(0 <= c and c < len(comps) and x in comps[c], x not in nodes), "int,PyVal")
+            # the block under construction and the agenda: vertices outside s that are in no finished block
+            and forall(lambda x: implies(x in comp or x in agenda, x in g and x not in s
+                                         and forall(lambda c: implies(0 <= c and c < len(comps), x not in comps[c]), "int")), "PyVal")
+            and forall(lambda x: not (x in comp and x in agenda), "PyVal")
+            and exists(lambda x: x in comp or x in agenda, "PyVal")
+            and forall(lambda x, y: implies(x in comp and y in g[x] and y not in s, y in comp or y in agenda), "PyVal,PyVal")
+            and forall(lambda x: implies(x in g and x not in s, x in nodes or x in comp or x in agenda
+                                         or exists(lambda c: 0 <= c and c < len(comps) and x in comps[c], "int")), "PyVal")),
+    }
+    ensures = {
+        "partition_closed_under_adjacency": lambda g, s, result: cc_blocks_ok(g, s, result),
+        "covers": lambda g, s, result: forall(lambda x: implies(x in g and x not in s,
+                                                                exists(lambda c: 0 <= c and c < len(result) and x in result[c], "int")), "PyVal"),
+        "pure": lambda g, s: g == old(g) and s == old(s),
+    }
